@@ -1011,7 +1011,9 @@ def _request_items(t, data, dec_of, lay, ktypes, evdec):
                             pass
                     if got != v:
                         errs.append(f'process_acquire would read {k2} = {s.get(k2)!r}, the kernel sent {v!r}')
+            _chk_ctl_acquire(bag, ev, kv, label)
         elif kind == 'expire':
+            _chk_ctl_expire(bag, ev, kv, label)
             s = ev.get('sem')
             if s is not None:
                 want = {'is_expire': True, 'spi': '%08x' % kv['state.id.spi'], 'hard': kv['hard']}
@@ -1088,6 +1090,14 @@ def _request_items(t, data, dec_of, lay, ktypes, evdec):
         'bounded-parse-expire': "Xfrm.parse_message on XFRM_MSG_EXPIRE laid out by the C program: 4 outer address pairs x 4 SPIs x hard {0,1} = "
                                 "32 with selectors, lifetimes, counters, stats rotated: all fields of xfrm_user_expire and the values "
                                 "IkeSaController.process_expire reads",
+        'bounded-acquire-dispatch': "the real IkeSaController.process_acquire on each of the 288 parsed ACQUIRE events above (inner and outer "
+                                    "families mixed both ways), IkeSa replaced by a recording stub, table = one IKE_SA with another peer plus, "
+                                    "alternately, one with the ACQUIRE's peer: re-use / creation (initiator, zero peer SPI, configuration for "
+                                    "(saddr, id.daddr)), TSi/TSr = exactly the flow the kernel named, index = policy.index >> 3, return value, "
+                                    "no other IKE_SA touched",
+        'bounded-expire-dispatch': "the real IkeSaController.process_expire on each of the 32 parsed EXPIRE events, IkeSa replaced by a "
+                                   "recording stub, SPI tracked by nobody / as inbound SPI of the second CHILD_SA of the second IKE_SA / as "
+                                   "outbound SPI: routed to the owner with the event's SPI and hard flag, nobody else touched",
         'bounded-parse-replies': "Xfrm.parse_message on 1 ack, 7 error replies (errno 1, 2, 3, 17, 22, 95, 4095, request echoed) and 1 NLMSG_DONE "
                                  "laid out by the C program: header, nlmsgerr.error sign and value, echoed request header",
     }
@@ -1113,6 +1123,87 @@ def _request_items(t, data, dec_of, lay, ktypes, evdec):
     for item in bag.fails:
         if item not in grid:
             yield (item, False, ' || '.join(bag.fails[item][:3]), 'bounded')
+
+
+def _ts_of_flow(addr, port, proto):
+    """the traffic selector that denotes exactly the flow end the kernel named: one address, one port (0 = any)"""
+    a = _ip.ip_address(addr)
+    return {'ts_type': 7 if a.version == 4 else 8, 'ip_proto': proto, 'start_port': port,
+            'end_port': 65535 if port == 0 else port, 'start_addr': str(a), 'end_addr': str(a)}
+
+
+def _chk_ctl_acquire(bag, ev, kv, label):
+    """bounded run of the real IkeSaController.process_acquire on the parsed event (IkeSa replaced by a recording
+    stub): the IKE_SA with the peer of the template is re-used, else one is created as initiator for (saddr, id.daddr);
+    it receives TSi/TSr denoting exactly the flow of the ACQUIRE (selector's own family) and index = policy.index >> 3;
+    no other IKE_SA is touched"""
+    item = 'bounded-acquire-dispatch'
+    c = ev.get('ctl')
+    if c is None:
+        return
+    bag.ran(item)
+    errs = []
+    variant = ev['ctl_variant']
+    label = f"IkeSaController.process_acquire on {label}, table = [other" + (", existing IKE_SA with the peer]" if variant else "]")
+    if 'error' in c:
+        bag.fail(item, f"raised {c['error']}; input: {label}")
+        return
+    peer, me = str(_ip.ip_address(kv['id.daddr'])), str(_ip.ip_address(kv['saddr']))
+    tab = c['table']
+    want_tags = ['other', 'existing'] if variant else ['other', 'new']
+    if [x['tag'] for x in tab] != want_tags:
+        errs.append(f"IKE_SA table afterwards is {[x['tag'] for x in tab]}, expected {want_tags}")
+    else:
+        tgt = tab[1]
+        if tab[0]['calls']:
+            errs.append(f"the IKE_SA with another peer received {tab[0]['calls']}")
+        if not variant:
+            if (tgt['my_addr'], tgt['peer_addr']) != (me, peer):
+                errs.append(f"new IKE_SA created for ({tgt['my_addr']}, {tgt['peer_addr']}), the ACQUIRE names ({me}, {peer})")
+            if tgt['ctor']['is_initiator'] is not True or tgt['ctor']['peer_spi'] != '00' * 8:
+                errs.append(f"new IKE_SA constructed with {tgt['ctor']}")
+            if tgt['ctor']['configuration'] != ['ike-conf-for', me, peer]:
+                errs.append(f"new IKE_SA got the configuration looked up for {tgt['ctor']['configuration']}, expected ({me}, {peer})")
+        want_call = {'fn': 'process_acquire', 'tsi': _ts_of_flow(kv['sel.saddr'], kv['sel.sport'], kv['sel.proto']),
+                     'tsr': _ts_of_flow(kv['sel.daddr'], kv['sel.dport'], kv['sel.proto']), 'index': kv['policy.index'] >> 3}
+        if tgt['calls'] != [want_call]:
+            errs.append(f"the IKE_SA with the peer received {tgt['calls']}, the ACQUIRE means {[want_call]}")
+        want_ret = ['request-of-' + tgt['tag'], tgt['my_addr'], tgt['peer_addr']]
+        if c.get('returned') != want_ret:
+            errs.append(f"returned {c.get('returned')}, expected {want_ret}")
+    for e in errs:
+        bag.fail(item, f'{e}; input: {label}')
+
+
+def _chk_ctl_expire(bag, ev, kv, label):
+    """bounded run of the real IkeSaController.process_expire: the EXPIRE goes to the IKE_SA that tracks a CHILD_SA with
+    that SPI (inbound or outbound), with the SPI and the hard flag of the event, to nobody when no IKE_SA tracks it"""
+    item = 'bounded-expire-dispatch'
+    c = ev.get('ctl')
+    if c is None:
+        return
+    bag.ran(item)
+    variant = ev['ctl_variant']
+    label = (f"IkeSaController.process_expire on {label}, table = [other" +
+             ("]", ", owner (SPI is its second CHILD_SA's inbound SPI)]", ", owner (SPI is its outbound SPI)]")[variant])
+    if 'error' in c:
+        bag.fail(item, f"raised {c['error']}; input: {label}")
+        return
+    errs = []
+    tab = c['table']
+    want_call = {'fn': 'process_expire', 'spi': '%08x' % kv['state.id.spi'], 'hard': kv['hard']}
+    if tab[0]['calls']:
+        errs.append(f"the IKE_SA that does not track the SPI received {tab[0]['calls']}")
+    if variant == 0:
+        if len(tab) != 1 or c.get('returned') != [None, None, None]:
+            errs.append(f"no IKE_SA tracks the SPI but the call returned {c.get('returned')} / table {[x['tag'] for x in tab]}")
+    else:
+        if len(tab) != 2 or tab[1]['calls'] != [want_call]:
+            errs.append(f"the owning IKE_SA received {tab[1]['calls'] if len(tab) > 1 else None}, the EXPIRE means {[want_call]}")
+        elif c.get('returned') != ['request-of-owner', tab[1]['my_addr'], tab[1]['peer_addr']]:
+            errs.append(f"returned {c.get('returned')}")
+    for e in errs:
+        bag.fail(item, f'{e}; input: {label}')
 
 
 def _oracle_selfcheck(events, evdec, K):
@@ -1172,7 +1263,17 @@ def _request_facts(t):
     yield from items
 
 
-evalfact('xfrm-requests', ['C14'], _request_facts,
+_CONTROLLER_ITEMS = ('bounded-acquire-dispatch', 'bounded-expire-dispatch')
+
+
+def _c14_facts(t):
+    # the two runs of the controller's event handlers say nothing about the netlink ABI: reported under C15 / C13
+    for it in _request_facts(t):
+        if it[0] not in _CONTROLLER_ITEMS:
+            yield it
+
+
+evalfact('xfrm-requests', ['C14'], _c14_facts,
          'request builders emit, and the event parser reads, what the kernel structures say (bounded differential check '
          'against a C decoder/encoder compiled from the UAPI headers)')
 
@@ -1196,7 +1297,8 @@ evalfact('xfrm-selectors', ['C12'], _selector_facts,
 def _policy_facts(t):
     """C15: start-up flush and policy installation, and what the controller reads from a kernel ACQUIRE.  Same driver
     as xfrm-requests; only the items about policies, flushing and ACQUIRE parsing are reported here (bounded)"""
-    wanted = ('bounded-create-policies', 'bounded-create-policy', 'bounded-flush', 'bounded-parse-acquire')
+    wanted = ('bounded-create-policies', 'bounded-create-policy', 'bounded-flush', 'bounded-parse-acquire',
+              'bounded-acquire-dispatch')
     seen = set()
     for name, ok, detail, *rest in _request_facts(t):
         if name in wanted:
@@ -1210,3 +1312,19 @@ def _policy_facts(t):
 evalfact('xfrm-policies', ['C15'], _policy_facts,
          'one outbound (index << 3 | OUT), one inbound and one forward policy per protect entry with the configured '
          'selectors, protocol, mode and endpoints; flush requests; fields read from a kernel ACQUIRE (bounded)')
+
+
+def _expire_routing_facts(t):
+    """C13: a kernel EXPIRE (soft = rekey, hard = delete) reaches the IKE_SA that tracks the CHILD_SA, with the SPI and
+    the hard flag of the event.  Same driver as xfrm-requests (bounded)"""
+    seen = False
+    for name, ok, detail, *rest in _request_facts(t):
+        if name == 'bounded-expire-dispatch':
+            seen = True
+            yield (name, ok, detail, 'bounded')
+    if not seen:
+        yield ('bounded-expire-dispatch', False, 'the driver produced no case of this kind', 'bounded')
+
+
+evalfact('expire-routing', ['C13'], _expire_routing_facts,
+         'IkeSaController.process_expire hands a kernel EXPIRE to the IKE_SA that tracks the SPI, unchanged (bounded)')
